@@ -261,3 +261,90 @@ Theorem full_report_one_line_message : forall sty c o x bytes,
     bytes = o_buf o ++ pre ++ [NL] ++ spaces ind ++ shown (x_name x) ++ [NL] ++ [NL] ++ spaces ind ++ shown (x_msg x) ++ [NL] ++ post.
 Proof. exact full_bytes_one_line. Qed.
 Print Assumptions full_report_one_line_message.
+
+(* ---- the solutions (ExceptionTrace._render_solution): proofs in Proofs/TraceSolutionLemmas.v ---- *)
+From Clikit Require Import Proofs.TraceSolutionLemmas.
+(* the line of a solution is a line of literals and safe separators - the explicit pieces: the bullet, the title without
+   its trailing dots, ": ", the description (four blanks after every line break, blanks at the ends dropped), the links *)
+Theorem solution_line_is_its_pieces : forall utf8 s, solution_line utf8 s = line_str (sol_pieces utf8 s).
+Proof. exact solution_line_pieces. Qed.
+Print Assumptions solution_line_is_its_pieces.
+(* in every style table, for EVERY title, description and links *)
+Theorem solution_line_is_literals_and_separators : forall sty utf8 s, good_line sty (solution_line utf8 s).
+Proof. exact solution_line_good. Qed.
+Print Assumptions solution_line_is_literals_and_separators.
+Theorem solution_line_escape_free : forall sty utf8 s, sol_ne s -> good_line_ne sty (solution_line utf8 s).
+Proof. exact solution_line_good_ne. Qed.
+Print Assumptions solution_line_escape_free.
+Theorem every_written_line_with_solutions_is_literals_and_separators : forall sty, resolvable sty st_error -> resolvable sty st_b ->
+  forall c simple ind x sols ls, render_lines_sol c simple ind x sols = Ok ls -> Forall (fun wl => good_line sty (snd wl)) ls.
+Proof. exact render_lines_sol_good. Qed.
+Print Assumptions every_written_line_with_solutions_is_literals_and_separators.
+(* the solutions add no failure: the lines exist under exactly the condition of the report alone ... *)
+Theorem solutions_add_no_failure : forall c ind x sols,
+  (exists ls, render_lines_sol c false ind x sols = Ok ls) <-> render_cond c x.
+Proof. exact render_lines_sol_ok. Qed.
+Print Assumptions solutions_add_no_failure.
+(* ... and once they exist writing them cannot fail ... *)
+Theorem writing_the_report_with_solutions_never_fails : forall sty c simple o x sols ls,
+  out_ok sty o -> resolvable sty st_error -> resolvable sty st_b ->
+  render_lines_sol c simple (o_indent o) x sols = Ok ls ->
+  (decorated o = true -> Forall (fun wl => no_esc (snd wl)) ls) ->
+  exists bytes, render_sol c simple o x sols = Ok bytes.
+Proof. exact render_sol_never_fails_l. Qed.
+Print Assumptions writing_the_report_with_solutions_never_fails.
+(* ... so render with a solution provider repository fails only if tokenize does *)
+Theorem render_with_solutions_fails_only_if_tokenize_does : forall sty c simple o x sols,
+  out_ok sty o -> resolvable sty st_error -> resolvable sty st_b ->
+  (simple = false -> render_cond c x) ->
+  (decorated o = true -> forall ls, render_lines_sol c simple (o_indent o) x sols = Ok ls -> Forall (fun wl => no_esc (snd wl)) ls) ->
+  exists bytes, render_sol c simple o x sols = Ok bytes.
+Proof. exact render_sol_never_fails. Qed.
+Print Assumptions render_with_solutions_fails_only_if_tokenize_does.
+Theorem escape_free_solutions_give_escape_free_lines : forall c simple ind x sols ls, inputs_ne c x -> Forall sol_ne sols ->
+  render_lines_sol c simple ind x sols = Ok ls -> Forall (fun wl => no_esc (snd wl)) ls.
+Proof. exact lines_sol_noesc. Qed.
+Print Assumptions escape_free_solutions_give_escape_free_lines.
+Theorem render_with_solutions_fails_only_if_tokenize_does_inputs : forall sty c simple o x sols,
+  out_ok sty o -> resolvable sty st_error -> resolvable sty st_b ->
+  (simple = false -> render_cond c x) -> (decorated o = true -> inputs_ne c x /\ Forall sol_ne sols) ->
+  exists bytes, render_sol c simple o x sols = Ok bytes.
+Proof. exact render_sol_never_fails_inputs. Qed.
+Print Assumptions render_with_solutions_fails_only_if_tokenize_does_inputs.
+(* undecorated, the bytes are those of the report followed by, per solution, a blank line and the block:
+   sol_shown ind utf8 s = blanks, bullet, blank, shown title, ": ", shown description, the links each on its own line
+   (links_shown), a line break - every text indented as Output does (ind_text) *)
+Theorem solutions_follow_the_report : forall sty c o x sols bytes,
+  out_ok sty o -> resolvable sty st_error -> resolvable sty st_b -> decorated o = false -> (0 <= o_indent o)%Z ->
+  x_frames x <> [] -> render_sol c false o x sols = Ok bytes ->
+  let ind := (o_indent o + 2)%Z in
+  exists report, render c false o x = Ok report /\
+    bytes = report ++ flat_map (fun s => [NL] ++ sol_shown ind (t_utf8 c) s) sols.
+Proof. exact sol_bytes. Qed.
+Print Assumptions solutions_follow_the_report.
+Theorem full_report_with_solutions : forall sty c o x sols bytes,
+  out_ok sty o -> resolvable sty st_error -> resolvable sty st_b -> decorated o = false -> (0 <= o_indent o)%Z ->
+  x_frames x <> [] -> render_sol c false o x sols = Ok bytes ->
+  let ind := (o_indent o + 2)%Z in
+  exists tr_p sn_p,
+    render_trace c ind (x_frames x) = Ok (map pline_w tr_p) /\
+    render_snippet c ind (last (x_frames x) dflt_frame) = Ok (map pline_w sn_p) /\
+    bytes = o_buf o ++ flat_map shown_line tr_p
+              ++ [NL] ++ spaces ind ++ shown (ind_text ind (x_name x)) ++ [NL]
+              ++ [NL] ++ spaces ind ++ shown (ind_text ind (msg_text (x_msg x))) ++ [NL]
+              ++ flat_map shown_line sn_p
+              ++ flat_map (fun s => [NL] ++ sol_shown ind (t_utf8 c) s) sols.
+Proof. exact sol_full_bytes. Qed.
+Print Assumptions full_report_with_solutions.
+(* a solution whose texts hold no line break: the title without its trailing dots, the description without the blanks at
+   its ends, every link on its own line two blanks further in, a comma after all but the last *)
+Theorem solution_block_one_line_texts : forall ind utf8 s, no_nl (so_title s) -> no_nl (so_desc s) -> Forall no_nl (so_links s) ->
+  sol_shown ind utf8 s
+  = spaces ind ++ bullet utf8 ++ [32%N] ++ shown (rstrip_char 46 (so_title s)) ++ [58; 32]%N ++ shown (strip_char 32 (so_desc s))
+      ++ join_with COMMA (map (fun l => [NL] ++ spaces ind ++ [32; 32]%N ++ shown l) (so_links s)) ++ [NL].
+Proof. exact sol_shown_one_line. Qed.
+Print Assumptions solution_block_one_line_texts.
+(* simple mode and exceptions without frames: no solutions are printed *)
+Theorem simple_report_has_no_solutions : forall c o x sols, render_sol c true o x sols = render c true o x.
+Proof. exact render_sol_simple. Qed.
+Print Assumptions simple_report_has_no_solutions.
